@@ -6,6 +6,7 @@ import (
 	"runtime"
 	"strings"
 	"testing"
+	"unsafe"
 
 	"github.com/RoaringBitmap/roaring/v2"
 	"pgregory.net/rapid"
@@ -28,6 +29,17 @@ type zmember struct {
 // the mapping is scribbled and unmapped -> the history continues.
 func propC08(t *rapid.T) {
 	bs := gen.Bitmap(t, "S", gen.KindsValid, false)
+	if len(bs.Chunks) > 0 && rapid.Bool().Draw(t, "withFullRun") {
+		// full / edge-to-edge run chunks are where operations hand containers around unchanged
+		i := rapid.IntRange(0, len(bs.Chunks)-1).Draw(t, "fullRunAt")
+		lo := uint64(0)
+		if rapid.IntRange(0, 2).Draw(t, "notQuiteFull") == 0 {
+			lo = uint64(rapid.IntRange(1, 3).Draw(t, "fullRunLo"))
+		}
+		bs.Chunks[i].Kind = spec.Run
+		bs.Chunks[i].Ivs = []model.Iv{{Lo: lo, Hi: 65535}}
+		bs.Shapes[i] = "fullrun"
+	}
 	entry := rapid.SampledFrom([]int{eFromBuffer, eFromUnsafeBytes, eFrozenView}).Draw(t, "entry")
 	var raw []byte
 	if entry == eFrozenView {
@@ -91,6 +103,20 @@ func propC08(t *rapid.T) {
 		}
 		if !detached && !bytes.Equal(g.Data, pristine) {
 			fail("the caller's buffer was modified")
+		}
+		if !detached && len(g.Data) > 0 {
+			// structural (hook): a container whose backing array lies inside the caller's
+			// buffer must be flagged copy-on-write in every bitmap that holds it,
+			// otherwise the next in-place change of that chunk writes into the buffer
+			lo := uintptr(unsafe.Pointer(unsafe.SliceData(g.Data)))
+			hi := lo + uintptr(len(g.Data))
+			for _, z := range ms {
+				for _, c := range z.b.VerifChunks() {
+					if c.Data >= lo && c.Data < hi && !c.Shared {
+						fail("bitmap #%d holds chunk key %d (%d values) whose backing array lies inside the caller's buffer WITHOUT the copy-on-write flag: the next in-place change of that chunk writes into the buffer", z.id, c.Key, c.Card)
+					}
+				}
+			}
 		}
 	}
 	check()
@@ -221,6 +247,22 @@ func propC08(t *rapid.T) {
 		"ordinary": func(t *rapid.T) {
 			// an ordinary bitmap on the view's keys, to be used as operand
 			os, rel := gen.Related(t, "o", bs, gen.KindsValid)
+			if rapid.IntRange(0, 3).Draw(t, "dense") == 0 {
+				// a privately owned bitmap container on every key of the view
+				dm := model.New()
+				for ci, c := range bs.Chunks {
+					if ci >= 2 {
+						break
+					}
+					var vs []uint64
+					off := uint64(rapid.IntRange(0, 1).Draw(t, "parity"))
+					for v := off; v < 65536; v += 2 {
+						vs = append(vs, uint64(c.Key)<<16+v)
+					}
+					dm = model.Or(dm, model.FromValues(vs))
+				}
+				os, rel = gen.FromSet(t, "dense", dm, gen.KindsValid), "dense-same-keys"
+			}
 			ol, err := live.Make(os, live.Read)
 			if err != nil {
 				t.Fatalf("harness: %v", err)
